@@ -324,7 +324,11 @@ class Server(object):
             if not self._encrypt_session():
                 tls_failure.send(self.io)
                 raise StopIteration()
+            # RFC 3207, 4.2: back to the initial state, everything the client
+            # said in clear text is forgotten.
             self.ehlo_as = None
+            self.have_mailfrom = None
+            self.have_rcptto = None
             self.extensions.drop('STARTTLS')
 
     def _command_AUTH(self, arg):
